@@ -225,10 +225,26 @@ def nested_streams(entries, form="plain"):
     return out
 
 
+def special_object(spec):
+    """Objects a Python-built config may legally hold but that no text format can express."""
+    kind = spec["__obj__"]
+    if kind == "dict_values":
+        return dict(enumerate(spec.get("of", []))).values()
+    if kind == "generator":
+        return (x for x in spec.get("of", []))
+    if kind == "lock":
+        import threading
+
+        return threading.Lock()
+    raise ValueError(kind)
+
+
 def reform(v, form, top=False):
     """The same parameter values in another Python spelling (only for in-memory carriers):
     'tuples' - sequences as tuples; 'numpy' - numbers as numpy scalars."""
-    if form == "plain":
+    if isinstance(v, dict) and "__obj__" in v:
+        return f"<{v['__obj__']}>" if form == "text" else special_object(v)
+    if form in ("plain", "text") and not isinstance(v, (dict, list)):
         return v
     if isinstance(v, dict):
         return {k: reform(x, form) for k, x in v.items()}
@@ -260,7 +276,7 @@ def config_document(cfg, text=False):
             d["window"] = wd
         if c.get("region"):
             d["region"] = json.loads(json.dumps(c["region"]))
-        d["streams"] = nested_streams(c["entries"], "plain" if text else cfg.get("param_form", "plain"))
+        d["streams"] = nested_streams(c["entries"], "text" if text else cfg.get("param_form", "plain"))
         ctxs.append(d)
     if cfg.get("layout", "contexts") == "streams" and len(ctxs) == 1:
         return ctxs[0]
